@@ -400,7 +400,11 @@ class SG:
                 ops.append(self.flag_op())
             elif k == 8:
                 ops.append([self.pick(["lives", "object", "performer"]), [self.val_int_or_const()], None])
-                ops.append(self.plain_op() if self.b(3, 4) else self.flag_op())
+                if self.b(1, 6):
+                    # an op that ends the flow of the entity it runs on; behind a context op it is an ordinary op
+                    ops.append(["Destroy", [], None])
+                else:
+                    ops.append(self.plain_op() if self.b(3, 4) else self.flag_op())
             elif k < 12:
                 ops.append(self.branch_op())
             elif k < 14:
@@ -580,6 +584,15 @@ def shrink_candidates(case):
 
 def well_formed(case) -> tuple[bool, str]:
     """The well-formedness the statements of C02/C06 require (strata 1-3)."""
+    # a Destroy behind a context op is an ordinary op only when it is entered THROUGH the context op: a jump straight
+    # to it would run it on the routine's own entity (and end the routine) - no single meaning, not generated
+    for r in case["routines"]:
+        for op in r["ops"]:
+            if op[2] is not None:
+                tr, ti = op[2]
+                tops = case["routines"][tr]["ops"]
+                if 0 < ti < len(tops) and tops[ti][0] in T.STOP_OPS and tops[ti - 1][0] in T.OPS_CTX:
+                    return False, "jump into a context pair whose op is flow-ending"
     for r_i, r in enumerate(case["routines"]):
         ops = r["ops"]
         if not ops:
@@ -596,7 +609,7 @@ def well_formed(case) -> tuple[bool, str]:
                 if i + 1 >= len(ops):
                     return False, "context op at end"
                 nxt = ops[i + 1][0]
-                if nxt in T.JUMP_OPS or nxt in T.STOP_OPS or nxt in T.OPS_CTX or nxt in T.SWITCH_CASE_MAP or nxt in T.MSG_SWITCHES or nxt in ("CaseText", "DefaultText"):
+                if nxt in T.JUMP_OPS or (nxt in T.STOP_OPS and nxt != "Destroy") or nxt in T.OPS_CTX or nxt in T.SWITCH_CASE_MAP or nxt in T.MSG_SWITCHES or nxt in ("CaseText", "DefaultText"):
                     return False, "context op not followed by a plain op"
                 if prev in T.OPS_CTX:
                     return False, "nested context"
@@ -636,8 +649,12 @@ def well_formed(case) -> tuple[bool, str]:
 
 
 def locally_reachable(case, r_i) -> set[int]:
-    """Indices of the ops of routine r_i that can be reached from its first op without leaving the routine."""
+    """Indices of the ops of routine r_i that can be reached from its first op without leaving the routine - in the
+    flow graph the decompiler builds: if the routine set contains a Call anywhere, it keeps the edge from a
+    Return / End / Hold / Destroy to the op behind it (a called subroutine returns there), so code behind such an op
+    counts as reachable; a Jump / JumpCommon never has that edge."""
     ops = case["routines"][r_i]["ops"]
+    has_calls = any(op[0] == "Call" for r in case["routines"] for op in r["ops"])
     seen: set[int] = set()
     stack = [0] if ops else []
     while stack:
@@ -651,8 +668,8 @@ def locally_reachable(case, r_i) -> set[int]:
             stack.append(tgt[1])
         if in_ctx or not (name == "Jump" or name in T.STOP_OPS):
             stack.append(i + 1)
-        elif name == "Hold" and i + 1 < len(ops) and ops[i + 1][0] in T.STOP_OPS:
-            pass
+        elif has_calls and name not in ("Jump", "JumpCommon"):
+            stack.append(i + 1)
     return seen
 
 
